@@ -1,5 +1,6 @@
 Require Import ExtrOcamlBasic.
-From Eupsv Require Import Base.Base Model.Manifest Model.ManifestSpec.
+From Eupsv Require Import Base.Base Model.Manifest Model.ManifestSpec Model.ManifestOps.
 Extraction "model.ml" keep_types new_dep m_write m_read empty_manifest tl_new tl_add tl_write tl_read tl_products
   m_of_rows m_inverse remap m_apply spec_remap norm_manifest wf_manifest sorted_entries visible as_flavor
-  m_merge read_remap remap_rows files_rows remap_entries m_print wf_table m_noreinstall remap_declares.
+  m_merge read_remap remap_rows files_rows remap_entries m_print wf_table m_noreinstall remap_declares
+  tl_trace m_trace.
